@@ -14,6 +14,57 @@ use serde::{Deserialize, Serialize};
 pub enum Case {
     Points { data: Recipe, cfg: Config, sched: Schedule, driver: Driver },
     NoSyncEquiv { data: Recipe, cfg: Config, cut: u32, opt: bool },
+    /// the zlib idiom for a flush into small buffers: repeat the Full flush call until it returns
+    /// with space to spare, then go on with data resembling what came before
+    FullDrain { data: Recipe, cfg: Config, cut: u32, out_chunk: u32 },
+}
+
+/// "After a full flush no later match refers to data from before the flush", read off the token
+/// trace of the complete stream: for every input position p at which Full flushes (and no other
+/// kind of flush) were requested and at which the stream contains a flush marker (empty stored
+/// block), no match after that marker may reach back before p. This also covers flushes whose
+/// output was collected over several calls.
+fn full_flush_cuts(out: &[u8], zl: bool, x: &[u8], call_log: &[(u8, usize)], eff: &dyn Fn(u8) -> u8, cx: &mut Ctx) -> Check {
+    let mut fulls: Vec<usize> = call_log.iter().filter(|(f, _)| eff(*f) == 3).map(|(_, p)| *p).collect();
+    fulls.sort();
+    fulls.dedup();
+    if fulls.is_empty() {
+        return Ok(());
+    }
+    let r = ref_inflate(out, &Opts::fmt(zl).tokens());
+    if !r.is_valid() || r.out != x {
+        // not this check's business (C02)
+        cx.class("full-flush-trace:stream-not-valid(skipped)");
+        return Ok(());
+    }
+    for p in fulls {
+        if call_log.iter().any(|(f, q)| *q == p && !matches!(eff(*f), 0 | 3)) {
+            cx.class("full-flush-trace:other-flush-kinds-at-same-position(skipped)");
+            continue;
+        }
+        let Some(bi) = r.blocks.iter().rposition(|b| b.btype == 0 && b.stored_len == 0 && !b.bfinal && b.out_start == p) else {
+            cx.class("full-flush-trace:no-marker-emitted");
+            continue;
+        };
+        for b in &r.blocks[bi + 1..] {
+            let mut q = b.out_start;
+            for t in &b.tokens {
+                match t {
+                    crate::oracle::inflate::Tok::Lit(_) => q += 1,
+                    crate::oracle::inflate::Tok::Match { len, dist } => {
+                        vensure!(q >= p + *dist as usize, "c12:history-survives-full-flush", "a Full flush was requested after {p} input bytes and its marker is in the stream, but the match at plaintext offset {q} (length {len}) reaches back {dist} bytes, across the flush point");
+                        q += *len as usize;
+                    }
+                }
+            }
+        }
+        cx.class("full-flush-trace:checked");
+        if p >= 1 && p < x.len() {
+            cx.class("full-flush-trace:checked-midstream");
+        }
+        cx.evals(1);
+    }
+    Ok(())
 }
 
 pub struct P;
@@ -54,7 +105,11 @@ impl Prop for P {
             Case::Points { data, cfg, sched, driver }
         });
         let ns = (data, config(), any::<u32>(), any::<bool>()).prop_map(|(data, cfg, cut, opt)| Case::NoSyncEquiv { data, cfg, cut, opt });
-        prop_oneof![8 => pts, 1 => ns].boxed()
+        let fd = (recipe(6000, 3), config(), any::<u32>(), prop_oneof![3 => 1u32..=64, 2 => 1u32..=600, 1 => 1u32..=5000]).prop_map(|(mut data, cfg, cut, out_chunk)| {
+            data.twice = true;
+            Case::FullDrain { data, cfg, cut, out_chunk }
+        });
+        prop_oneof![8 => pts, 1 => ns, 2 => fd].boxed()
     }
     fn check(case: &Case, cx: &mut Ctx) -> Check {
         match case {
@@ -92,6 +147,64 @@ impl Prop for P {
                     }
                     cx.evals(1);
                 }
+                let stream_driver = *driver == Driver::Stream;
+                full_flush_cuts(&run.out, zl, &x, &run.call_log, &move |f| if stream_driver { match f { 1 | 6 => 1, 2 | 5 => 2, 3 => 3, 4 => 4, _ => 0 } } else { f }, cx)?;
+                Ok(())
+            }
+            Case::FullDrain { data, cfg, cut, out_chunk } => {
+                let x = data.expand();
+                let zl = cfg.is_zlib();
+                // the flush point: in the middle of "twice" data the second half repeats the first
+                let mid = x.len() / 2;
+                let cut = if cut % 4 == 0 { *cut as usize % (x.len() + 1) } else { (mid + (*cut as usize >> 2) % 9).saturating_sub(4).min(x.len()) };
+                // buffers of at least 7 bytes: with fewer, every repeated flush call emits another 5-byte
+                // marker that fills the buffer again and the idiom never terminates (zlib documents
+                // the same: avail_out must exceed 6 for a flush)
+                let k = (*out_chunk).max(7) as usize;
+                let mut c = cfg.make();
+                let mut out = Vec::new();
+                let mut log = Vec::new();
+                let mut pos = 0usize;
+                let mut calls = 0usize;
+                let mut buf = vec![0u8; k];
+                loop {
+                    let (st, ci, co) = guard(|| compress(&mut c, &x[pos..cut], &mut buf, TDEFLFlush::Full)).map_err(|pm| Violation::new(panic_sig("compress", &pm), format!("compress panicked: {pm}")))?;
+                    vensure!(st == TDEFLStatus::Okay && ci <= cut - pos && co <= k, "c12:full-drain-call", "Full flush call #{calls}: status {st:?}, consumed {ci}/{}, written {co}/{k}", cut - pos);
+                    pos += ci;
+                    out.extend_from_slice(&buf[..co]);
+                    log.push((3u8, pos));
+                    calls += 1;
+                    if pos == cut && co < k {
+                        break;
+                    }
+                    vensure!(calls <= 2 * (cut + 90_000) / k.min(64) + 64, "c12:full-drain-not-terminating", "Full flush into {k}-byte buffers did not complete after {calls} calls");
+                }
+                let head_len = out.len();
+                let mut big = vec![0u8; x.len() - cut + (x.len() - cut) / 4 + 100_000];
+                loop {
+                    let (st, ci, co) = guard(|| compress(&mut c, &x[pos..], &mut big, TDEFLFlush::Finish)).map_err(|pm| Violation::new(panic_sig("compress", &pm), format!("compress panicked: {pm}")))?;
+                    pos += ci;
+                    out.extend_from_slice(&big[..co]);
+                    log.push((4u8, pos));
+                    calls += 1;
+                    if st == TDEFLStatus::Done {
+                        break;
+                    }
+                    vensure!(st == TDEFLStatus::Okay && (ci > 0 || co > 0), "c12:full-drain-finish", "Finish after the drained flush: {st:?}, consumed {ci}, written {co}");
+                }
+                // the last Full call left space and consumed everything: all input so far is decodable
+                let r = ref_inflate(&out[..head_len], &Opts::fmt(zl));
+                vensure!(r.verdict == Verdict::Incomplete && r.out[..] == x[..cut], "c12:flush3-not-all-input-decodable", "Full flush collected in {k}-byte pieces ({calls} calls): the {head_len} emitted bytes decode to {} of {cut} bytes ({:?}) ({cfg:?})", r.out.len(), r.verdict);
+                vensure!(head_len >= 4 && out[head_len - 4..head_len] == [0, 0, 0xff, 0xff] && r.at_block_boundary, "c12:sync-marker-missing", "drained Full flush does not end in the marker");
+                // the remainder decodes on its own
+                let rr = ref_inflate(&out[head_len..], &Opts::raw());
+                vensure!(rr.verdict == Verdict::Valid && rr.out[..] == x[cut..], "c12:history-survives-full-flush", "the stream after a Full flush collected in {k}-byte pieces does not decode on its own: {:?} ({} of {} remaining bytes) ({cfg:?})", rr.verdict, rr.out.len(), x.len() - cut);
+                full_flush_cuts(&out, zl, &x, &log, &|f| f, cx)?;
+                if log.iter().filter(|(f, _)| *f == 3).count() >= 2 && cut >= 1 && cut < x.len() {
+                    cx.nontrivial();
+                    cx.class("full-drain:several-calls");
+                }
+                cx.class("full-drain");
                 Ok(())
             }
             Case::NoSyncEquiv { data, cfg, cut, opt } => {
